@@ -139,7 +139,8 @@ PROPS = {
              [RANDOM_Q, ENUM_Q, fam("tour", n=300), fam("iterglue", n=2, scripted=False)],
              [RANDOM_T, ENUM_T, fam("tour", n=3000), fam("iterglue", n=40, scripted=False)], GUARDS),
     "C02": P("C02", ["LSProofs.Props.C02"], ["text", "len", "ptr", "kind", "handles"],
-             [fam("ladder", n=400), RANDOM_Q, ENUM_Q], [fam("ladder", n=4000), RANDOM_T, ENUM_T], GUARDS),
+             [fam("ladder", n=400), fam("iterglue", n=2, scripted=False), RANDOM_Q, ENUM_Q],
+             [fam("ladder", n=4000), fam("iterglue", n=40, scripted=False), RANDOM_T, ENUM_T], GUARDS),
     "C03": P("C03", ["LSProofs.Props.C03"], ["ev", "rc", "handles"],
              [RANDOM_Q, ENUM_Q, fam("ladder", n=300), fam("threads", n=100, scripted=False)],
              [RANDOM_T, ENUM_T, fam("ladder", n=3000), fam("threads", n=1500, scripted=False)], GUARDS, loom=True),
